@@ -5,8 +5,8 @@
     absolute time only in the [elif skipfirst:] branch ("both belong to continuing an earlier run"), so the row of
     a steady-state run ([skipfirst=False]) that follows an override is appended in the restarted integrator's
     RELATIVE time. *)
-From Coq Require Import QArith List Bool NArith.
-From Sim Require Import Integrator Simulator.
+From Coq Require Import QArith Qabs List Bool NArith.
+From Sim Require Import Integrator Simulator Protocol.
 Import ListNotations.
 Open Scope Q_scope.
 
@@ -42,3 +42,105 @@ Section Variants.
       | r => (handle_results_skipshift s1 r (f_skip_ss fx), Done)
       end.
 End Variants.
+
+(** * seeded change C14-4 (= C04-2): the decision of [Scipy.integrate_time_course] whether the current time [t0] has
+    to be put in front of the requested grid, [time_points[0] != self.t0], made tolerant
+    ([not np.isclose(time_points[0], self.t0)]).
+
+    The functions below are the modelled ones (Integrator.integrate_time_course, Simulator.simulate_time_course,
+    Protocol.protocol_tc_loop / simulate_protocol_time_course) with that ONE test abstracted into [same : Q -> Q -> bool]
+    ("the grid already starts at the current time").  [same := Qeq_bool] IS the shipped model (proved in
+    SwitchProofs.v: [*_by_exact]); [same := np_isclose] is the seeded shape. *)
+
+(** [np.isclose(a, b, rtol, atol)]:  |a - b| <= atol + rtol * |b|  (b = the integrator's current time) *)
+Definition isclose (rtol atol a b : Q) : bool := Qle_bool (Qabs (a - b)) (atol + rtol * Qabs b).
+(** NumPy's defaults rtol = 1e-5, atol = 1e-8 *)
+Definition np_isclose : Q -> Q -> bool := isclose (1 # 100000) (1 # 100000000).
+
+Section IntegratorBy.
+  Variables Y P : Type.
+  Variable flow : P -> Q -> Y -> Q -> Y.
+  Variable solve_ok : P -> Q -> Y -> Q -> bool.
+  Variable same : Q -> Q -> bool.
+
+  Definition integrate_time_course_by (p : P) (ig : integ Y) (tp : list Q) : integ Y * ires Y :=
+    match tp with
+    | [] => (ig, IRaiseIndex)
+    | t :: _ =>
+        let tp' := if negb (same t (i_t0 ig)) then i_t0 ig :: tp else tp in
+        match solve_ivp Y P flow solve_ok p (i_y0 ig) tp' with
+        | IOk tc =>
+            (mkInteg (lastq (map fst tc) (i_t0 ig)) (last (map snd tc) (i_y0 ig)) (i_orig ig), IOk tc)
+        | r => (ig, r)
+        end
+    end.
+End IntegratorBy.
+
+Section CloseStart.
+  Variables Y P U : Type.
+  Variable flow : P -> Q -> Y -> Q -> Y.
+  Variable solve_ok : P -> Q -> Y -> Q -> bool.
+  Variable pupd : P -> U -> P.
+  Variable fx : sim_facts.
+  Variable same : Q -> Q -> bool.
+
+  Notation sim := (sim Y P).
+
+  Definition simulate_time_course_by (s : sim) (pts : list Q) : sim * outcome :=
+    if has_errors Y P s then (s, Done)
+    else match prior_t_end Y P s with
+         | None => (s, RaisedIndex)
+         | Some pr =>
+             match pts with
+             | [] => (s, RaisedIndex)
+             | p0 :: _ =>
+                 let sh := s_shift s in
+                 let ab := framed (f_tc_frame fx) sh (lastq pts p0) pr in
+                 if cmpb (f_tc_cmp fx) (fst ab) (snd ab) then (s, RaisedValue)
+                 else
+                   let rel :=
+                     match f_tc_frame fx with
+                     | FrameAbs | FrameUnknown =>
+                         map (sub_shift sh) (filter (fun t => cmpb (f_tc_keep fx) t pr) pts)
+                     | FrameRel =>
+                         filter (fun t => cmpb (f_tc_keep fx) t (sub_shift sh pr)) (map (sub_shift sh) pts)
+                     | FrameMixed =>
+                         filter (fun t => cmpb (f_tc_keep fx) t pr) (map (sub_shift sh) pts)
+                     end in
+                   finish Y P s (integrate_time_course_by Y P (mflow Y P flow fx s) (mok Y P solve_ok fx s) same
+                                   (s_mp s) (s_int s) rel) (f_skip_tc fx)
+             end
+         end.
+
+  Fixpoint protocol_tc_loop_by (s : sim) (t_start : Q) (full : list Q) (rows : list (Q * U)) : sim * outcome :=
+    match rows with
+    | [] => (s, Done)
+    | (t_end, u) :: rest =>
+        let s1 := update_parameters Y P U pupd s u in
+        let sel := filter (fun t => cmpb (f_win_lo fx) t t_start && cmpb (f_win_hi fx) t t_end) full in
+        match simulate_time_course_by s1 sel with
+        | (s2, Done) =>
+            match s_vars s2 with
+            | None => (s2, Done)
+            | Some _ => protocol_tc_loop_by s2 t_end full rest
+            end
+        | (s2, o) => (s2, o)
+        end
+    end.
+
+  Definition simulate_protocol_time_course_by (s : sim) (rows : list (Q * U)) (pts : list Q) (rel : bool)
+    : sim * outcome :=
+    if has_errors Y P s then (s, Done)
+    else match prior_t_end Y P s with
+         | None => (s, RaisedIndex)
+         | Some t_start =>
+             let rows' := map (fun r => (fst r + t_start, snd r)) rows in
+             let pts' := if rel then map (fun t => t + t_start) pts else pts in
+             match pts' with
+             | [] => (s, RaisedIndex)
+             | p0 :: _ =>
+                 if cmpb (f_ptc_cmp fx) (lastq pts' p0) t_start then (s, RaisedValue)
+                 else protocol_tc_loop_by s t_start (Protocol.qunion (map fst rows') pts') rows'
+             end
+         end.
+End CloseStart.
